@@ -70,7 +70,7 @@ open FontVerif.InterpLoops FontVerif.InterpData in
     Target::Mono at 16 ppem; the cvt table is all zeros. -/
 def interp (limFC limG cap nF nI nPts nTwi nCvt nSto : Nat) (scale : Int) (font cv : List Nat) (glyph : Option (List Nat)) : String :=
   let c := mkCfg font cv [] limFC false
-  let blank : List Def := (List.range nF).map (fun _ => {})
+  let blank : List Def := (List.range (functionSlots nF)).map (fun _ => {})
   let blankI : List Def := (List.range nI).map (fun _ => {})
   let zeros (n : Nat) : List Int := (List.range n).map (fun _ => 0)
   let g0 : G := { cap := cap, twiPts := nTwi, cvtLen := nCvt, ppem := 16 }
